@@ -10,3 +10,20 @@ pub(crate) fn verif_field(b: &[u8], tsv: bool) -> (Vec<u8>, Option<u8>, bool, us
         Err(()) => unreachable!(),
     }
 }
+
+/// run the real row reader on a byte slice until it reports the end: the rows it yields
+#[cfg(kani)]
+pub(crate) fn verif_rows(b: &[u8], tsv: bool) -> Vec<Val> {
+    let it = b.iter().map(|c| Ok::<u8, ()>(*c));
+    let mut out = Vec::new();
+    if tsv {
+        for r in read_tsv(it) {
+            out.push(r.unwrap());
+        }
+    } else {
+        for r in read_csv(it) {
+            out.push(r.unwrap());
+        }
+    }
+    out
+}
